@@ -129,6 +129,12 @@ Definition msg_ok (sv : srv) (m : msg) : bool :=
     (* every change lies in its changeset's range and is a change the server holds *)
     forallb (in_range s e) rows &&
     negb (memb v (sv_gaps sv)) &&
+    (* a version held only in the partial buffer is answered with sub-ranges of what is held *)
+    (match vget v (sv_live sv) with
+     | Some _ => true
+     | None => existsb (fun sr : srow => let '(rs, re, _) := sr in (rs <=? s) && (e <=? re))
+                       (match vget v (sv_seq sv) with Some r => r | None => [] end)
+     end) &&
     let src := match vget v (sv_live sv) with
                | Some l => l
                | None => match vget v (sv_buf sv) with Some b => b | None => [] end end in
